@@ -56,7 +56,7 @@ REQUIRED = ["trees_measured_from_inside_a_traversal", "trees", "length_checked",
             "node_features_checked", "counts_checked", "branch_order_checked", "sholl_intersect_checked",
             "sholl_get_checked", "sholl_exact_threshold_radii", "sholl_fixed_step_checked",
             "sholl_summaries_checked", "trees_measured_under_custom_column_names",
-            "densely_sampled_long_trees", "lmeasure_tree_checked",
+            "densely_sampled_long_trees", "front_ends_whose_results_the_caller_overwrites", "lmeasure_tree_checked",
             "lmeasure_node_checked", "lmeasure_bif_checked", "lmeasure_branch_checked",
             "frontend_tree_checked", "frontend_population_checked", "population_padding_checked",
             "frontend_requeried", "feature_queries_in_random_order",
@@ -106,6 +106,11 @@ def check_tree(ctx, case, tree, spec, ref: Ref, soma_ok: bool):
     scale = float(np.abs(ref.X - ref.X[ref.root]).max()) or 1.0
     L = ref.length()
     fe = extract_feature(tree)
+    if case["seed"] % 2:
+        # a caller that edits what it gets back in place (normalising, sorting, trimming): every
+        # later query through the same extractor still answers for the tree
+        fe = G.HostileCaller(fe)
+        ctx.count("front_ends_whose_results_the_caller_overwrites")
 
     # ---- length
     close(ctx, "Tree.length()", tree.length(), L, L)
